@@ -377,7 +377,11 @@ class RunLengthArray(NPSIndexable, np.lib.mixins.NDArrayOperatorsMixin):
         return self._apply_binary_func(*inputs, ufunc)
 
     def sum(self, axis=-1, out=None):
-        return np.sum(np.diff(self._events)*self._values)
+        lengths = np.diff(self._events)
+        if np.issubdtype(self._values.dtype, np.unsignedinteger):
+            # int64 lengths times uint64 values would be promoted to float64
+            lengths = lengths.astype(np.uint64)
+        return np.sum(lengths*self._values)
 
     def any(self, axis=-1, out=None):
         """TODO, this can be sped up by assuming no empty runs"""
@@ -654,10 +658,15 @@ class RunLength2dArray(IndexableMixin, np.lib.mixins.NDArrayOperatorsMixin):
             return self._col_sum()
         assert (axis == -1 or axis is None)
         lens = (self._indices[:, 1:]-self._indices[:, :-1])
+        last_lens = None if self._row_len is None else self._row_len-self._indices[:, -1]
+        if np.issubdtype(self._values.dtype, np.unsignedinteger):
+            # int64 lengths times uint64 values would be promoted to float64
+            lens = lens.astype(np.uint64)
+            last_lens = None if last_lens is None else last_lens.astype(np.uint64)
         if self._row_len is None:
             return np.sum(self._values*lens, axis=-1)
         internal_sum = np.sum(self._values[:, :-1] * lens, axis=-1)
-        return internal_sum + self._values[:, -1]*(self._row_len-self._indices[:, -1])
+        return internal_sum + self._values[:, -1]*last_lens
 
     def _col_sum(self):
         positions = self._indices.ravel()
